@@ -43,8 +43,8 @@ ASSUMPTIONS = [
     "a junk frame that a CiA 301 server could take for an expedited download, and a stray last download "
     "segment, may legitimately change the addressed entry: the model marks that entry 'tainted' and "
     "only checks frame well-formedness for it until the next accepted download",
-    "top-level variables ignore the sub-index and arrays synthesise members 1..255 in this implementation; "
-    "those addresses are not generated as 'missing'",
+    "top-level variables ignore the sub-index in this implementation (not generated as 'missing'); array members "
+    "2..255 that are not listed exist and are described by member 1 (type, access, default)",
     "indexes 0x1017 and 0x1400..0x1BFF are not generated (they carry heartbeat / PDO side effects)",
 ]
 BUDGET = {"quick": 50, "thorough": 420}
@@ -198,8 +198,13 @@ class Model:
             return self.ent[(index, 0)], None    # sub-index ignored by this implementation
         if (index, sub) in self.ent:
             return self.ent[(index, sub)], None
-        if kind == "array" and 0 < sub < 256:
-            return "synth", None
+        if kind == "array" and 0 < sub < 256 and (index, 1) in self.ent:
+            # members 2..255 that are not listed are described by member 1 (data type, access,
+            # default ...); a DCF parameter value belongs to the listed member only
+            synth = {k: v for k, v in self.ent[(index, 1)].items() if k != "value"}
+            synth["sub"] = sub
+            synth["synth"] = True
+            return synth, None
         return None, "nosub"
 
     @staticmethod
@@ -216,8 +221,6 @@ class Model:
         spec, cond = self.lookup(index, sub)
         if cond:
             return ("abort", CODES[cond])
-        if spec == "synth":
-            return ("skip", "synthesised array member")
         key = (index, sub) if self.kinds[index] != "var" else (index, 0)
         if not self.readable(spec):
             return ("abort", CODES["wo"])
@@ -241,8 +244,6 @@ class Model:
         spec, cond = self.lookup(index, sub)
         if cond:
             return ("abort", CODES[cond])
-        if spec == "synth":
-            return ("skip", "synthesised array member")
         codes = set()
         if not self.writable(spec):
             codes |= CODES["ro"]
@@ -390,7 +391,10 @@ def run_history(case, prefix):
                         bad("write-callback-count", f"{tag}: write callback invoked {len(new)} times")
                     else:
                         ci, cs, cod, cdata = new[0]
-                        if (ci, cs, cdata) != (index, sub, data) or cod is not want_od:
+                        same_od = cod is want_od or (
+                            m.lookup(index, sub)[0].get("synth") and (cod.index, cod.subindex, cod.data_type) ==
+                            (index, sub, want_od.data_type))
+                        if (ci, cs, cdata) != (index, sub, data) or not same_od:
                             bad("write-callback-args", f"{tag}: callback saw ({ci:04x},{cs},{cdata.hex()},"
                                                        f"{cod!r})")
                     if case.get("two_write_cbs") and (not rig.wlog2 or rig.wlog2[-1] != (index, sub, data)):
@@ -663,6 +667,12 @@ def lengths(max_len):
 def history(draw, max_len, refusal_bias=False, max_ops=14):
     od = draw(od_spec(min(max_len, 80)))
     ent = [(i, s, spec, kind) for i, s, spec, kind in entries(od)]
+    for o in od:
+        if o["kind"] == "array":
+            have = {m["sub"] for m in o["members"]}
+            tmpl = [m for m in o["members"] if m["sub"] == 1][0]
+            for sub in sorted(draw(st.sets(st.integers(2, 255).filter(lambda v: v not in have), max_size=2))):
+                ent.append((o["index"], sub, {k: v for k, v in tmpl.items() if k != "value"}, "array"))
     case = {"od": od}
     if draw(st.integers(0, 2)) == 0:
         cbs = []
